@@ -47,6 +47,8 @@ def model_st(draw, d, multi=True, allow_ignore=True, options=False):
             spec['positional'] = True        # order-sensitive model (array-based model behind a wrapper without feature names)
         elif k == 1:
             spec['opt'] = [draw(st.integers(1, 3))]   # reads an optional key that only some observations carry
+        elif k == 2:
+            spec['array_out'] = True         # float mode: output values are size-one NumPy arrays (numeric, but mutable objects)
         if len(outs) > 1 and draw(st.booleans()):
             spec['rank_order'] = True        # key order of the output dict depends on the input
         if draw(st.integers(0, 5)) == 0:
